@@ -19,7 +19,8 @@ RULE = ("Identity cases: two real RTCDtlsTransports (real OpenSSL handshake) ove
         "byte-identical on the other; with 1-3 bits flipped in transit nothing altered is ever delivered. The class-reduced "
         "identity matrix is enumerated completely across a run. Distinct/non-trivial = distinct (list classes, profile lists, "
         "roles) cells."
-        " The identity matrix includes lists naming one hash twice; a side that refused its peer is asked to send RTP/RTCP/data and must emit no datagram; an 'eager server' stratum coalesces the server's last handshake flight with its first application record into one datagram: nothing may be handed over before the client is 'connected'.")
+        " The identity matrix includes lists naming one hash twice; a side that refused its peer is asked to send RTP/RTCP/data and must emit no datagram; an 'eager server' stratum coalesces the server's last handshake flight with its first application record into one datagram: nothing may be handed over before the client is 'connected'."
+        ' Data messages of up to 1400 bytes go straight over DTLS.')
 ASSUMPTIONS = [
     "OpenSSL, pyOpenSSL and libsrtp are trusted; the monitor checks how aiortc uses them",
     "in-memory ICE stand-in, loss-free during the handshake (OpenSSL's retransmission clock is real time)",
